@@ -280,7 +280,14 @@ func (b *Backends) AcquireAuthBackend(ipList []string, port int, hostname string
 	key := fmt.Sprintf("%s:%d:%s", strings.Join(ipList, ","), port, hostname)
 	backend := b.authBackends[key]
 	if backend == nil {
-		name := fmt.Sprintf("backend%03d", len(b.authBackends)+1)
+		// the first name that is not in use: some of the former ones can have been removed
+		var name string
+		for i := len(b.authBackends) + 1; ; i++ {
+			name = fmt.Sprintf("backend%03d", i)
+			if !b.hasAuthBackendName(name) {
+				break
+			}
+		}
 		backend = b.AcquireBackend("_auth", name, strconv.Itoa(port))
 		if hostname != "" {
 			backend.CustomConfig = []string{"http-request set-header Host " + hostname}
@@ -291,6 +298,37 @@ func (b *Backends) AcquireAuthBackend(ipList []string, port int, hostname string
 		b.authBackends[key] = backend
 	}
 	return backend
+}
+
+func (b *Backends) hasAuthBackendName(name string) bool {
+	for _, backend := range b.authBackends {
+		if backend.Name == name {
+			return true
+		}
+	}
+	return false
+}
+
+// RemoveAuthBackendExcept removes the backends created by AcquireAuthBackend
+// whose ID is not in the used list
+func (b *Backends) RemoveAuthBackendExcept(used map[string]bool) {
+	for key, backend := range b.authBackends {
+		if used[backend.ID] {
+			continue
+		}
+		if b.itemsAdd[backend.ID] == backend {
+			// created by this very sync: it is not a change any more,
+			// and Shrink() would bring back a backend that is added and removed
+			delete(b.itemsAdd, backend.ID)
+			delete(b.items, backend.ID)
+			if len(b.shards) > 0 {
+				delete(b.shards[backend.shard], backend.ID)
+			}
+		} else {
+			b.RemoveAll([]string{backend.ID})
+		}
+		delete(b.authBackends, key)
+	}
 }
 
 // FindBackend ...
